@@ -8,7 +8,7 @@ open Huginn.Drv Huginn.H2 Huginn.Spec.H2 Huginn.Spec.Akamai
 def H : Hpack := Hpack.crate
 
 def hashOf (fp : Bytes) : String :=
-  String.ofList (((Sha256.hex fp).take Gen.H2.hashTake).map fun b => Char.ofNat b.toNat)
+  String.ofList (((H2Sha256.hex fp).take Gen.H2.hashTake).map fun b => Char.ofNat b.toNat)
 
 def showFp (sep : String) : Option Bytes → String
   | none => "0"
